@@ -118,6 +118,7 @@ type CallPlan struct {
 	InterceptorErrAfter bool          // client-stream: the outermost handler interceptor returns the plan\'s error after the handler has sent its response
 	CloseTwice          bool          // server-stream client calls Close twice
 	clientLimit         bool          // C14: the call ends on the client's own read limit
+	Abandon             bool          // client-stream: once the program has cancelled the context it calls nothing more (no CloseAndReceive)
 	protoRefused        bool          // C14: the handler lacks the compression the client sends with
 	unsendable          int           // C01: 1 + index of the request message the client's codec cannot marshal (0: none)
 	panicAfterCtx       bool
